@@ -9,7 +9,7 @@ RULE = ('close: bidirectional exchanges under seeded random schedules (5 chunk p
         'error 0 unless the close_notify arrived completely. alert: every level in {0,1,2,3,255} x descriptions (strided, random phase) injected as '
         'whole record, split over two records, and behind another warning in the same record, at 4 phases (2 in the plaintext handshake, idle '
         'after the handshake, after data): fatal/unknown level => CLOSED with BR_ERR_RECV_FATAL_ALERT+description; warnings => ignored and a '
-        'following data record still delivered in order. reneg: requested by client or server on a quiescent connection (must complete, hellos '
+        'following data record still delivered in order. prealert: a close_notify in an unprotected record (before any key; alone, after another warning, followed by further alert bytes) sent to a fresh client or server with each buffer layout, the record cut at EVERY position: coherent (some operation offered) while incomplete, closed with error 0 once complete, same outcome for every cut. reneg: requested by client or server on a quiescent connection (must complete, hellos '
         'carry renegotiation_info equal to the previous Finished values as decoded from the wire, keys change, streams exact before/after, three in '
         'a row), with BR_OPT_NO_RENEGOTIATION on the other side (no_renegotiation warning on the wire, no key change), documented refusals of '
         'br_ssl_engine_renegotiate, with application data in flight, and with a rogue peer whose saved Finished values differ in one bit at each of the 24 positions on either side (must be refused, never re-keyed). decline: a scripted peer (records forged with the real keys) sends HelloRequest / a renegotiation ClientHello to an endpoint with BR_OPT_NO_RENEGOTIATION: exactly one no_renegotiation warning, connection stays open, following data delivered in order. sslio: the client is driven through br_sslio_* with callbacks that pump '
@@ -19,10 +19,10 @@ ASSUMPTIONS = [
     'after a declined renegotiation the requester may stop with BR_ERR_RECV_FATAL_ALERT+100; streams must never be corrupted',
     'a no_renegotiation warning received outside a renegotiation is executed but not judged',
 ]
-EVAL = ['cases', 'cut_points', 'alerts_injected']
-DISTINCT = ['close_cfg', 'cut_cfg', 'alert_cfg', 'reneg_cfg', 'sslio_cfg', 'decline_cfg', 'schedule']
+EVAL = ['cases', 'cut_points', 'alerts_injected', 'prealert_runs']
+DISTINCT = ['close_cfg', 'cut_cfg', 'alert_cfg', 'reneg_cfg', 'sslio_cfg', 'decline_cfg', 'prealert_cfg', 'schedule']
 REQUIRED = ['close_ok', 'cut_points', 'fatal_alerts_reported', 'warnings_ignored_stream_intact', 'renegotiations_completed',
-            'renegotiation_info_verified', 'reneg_declined_cases', 'reneg_refusals_checked', 'sslio_cut_cases', 'sslio_close_calls', 'decline_ok', 'reneg_rogue_refused']
+            'renegotiation_info_verified', 'reneg_declined_cases', 'reneg_refusals_checked', 'sslio_cut_cases', 'sslio_close_calls', 'decline_ok', 'reneg_rogue_refused', 'prealert_cuts_agree']
 NW = 8
 
 
@@ -30,7 +30,7 @@ def jobs(tier, seed):
     q = tier == 'quick'
     plan = [('close', 1600 if q else 60000, 1), ('cut', 48 if q else 480, 1), ('alert', 32 if q else 96, 16 if q else 1),
             ('reneg', 1344 if q else 20160, 1), ('sslio', 192 if q else 4800, 1),
-            ('decline', 192 if q else 4800, 1)]
+            ('decline', 192 if q else 4800, 1), ('prealert', 72, 1)]
     js = []
     for mode, n, stride in plan:
         for i in range(NW):
